@@ -356,8 +356,6 @@ theorem rowAttrsOK_of_explicit : ∀ (s : Sheet), Explicit s → RowAttrsOK s
   | [], _ => trivial
   | _ :: rs, h => ⟨h.2.1, rowAttrsOK_of_explicit rs h.2.2.2⟩
 
-def lastNum (s : Sheet) : Nat := match s.getLast? with | some row => row.r | none => 0
-
 theorem le_lastNum : ∀ (s : Sheet) (cur : Nat), RowsAsc cur s → Explicit s →
     ∀ row ∈ s, row.r ≤ lastNum s
   | [], _, _, _, _, hm => by cases hm
